@@ -17,6 +17,7 @@ package tcell
 import (
 	"os"
 	"reflect"
+	"unicode"
 
 	runewidth "github.com/mattn/go-runewidth"
 )
@@ -67,7 +68,7 @@ func (cb *CellBuffer) SetContent(x int, y int,
 		c.currComb = append([]rune{}, combc...)
 
 		if c.currMain != mainc {
-			c.width = runewidth.RuneWidth(mainc)
+			c.width = runeCellWidth(mainc)
 		}
 		c.currMain = mainc
 		if style.fg == ColorNone {
@@ -221,7 +222,7 @@ func (cb *CellBuffer) Resize(w, h int) {
 // If either the foreground or background are ColorNone, then the respective
 // color is unchanged.
 func (cb *CellBuffer) Fill(r rune, style Style) {
-	width := runewidth.RuneWidth(r)
+	width := runeCellWidth(r)
 	for i := range cb.cells {
 		c := &cb.cells[i]
 		if c.width > 1 && (c.currMain != r || len(c.currComb) > 0) {
@@ -244,6 +245,18 @@ func (cb *CellBuffer) Fill(r rune, style Style) {
 		c.currStyle = cs
 		c.width = width
 	}
+}
+
+// runeCellWidth is the number of columns a rune takes up as the main rune of
+// a cell.  Format characters (bidi controls and isolates, word joiner, tags,
+// ...) are not something a cell can show; the width tables give some of them
+// a column, so they are singled out here and end up as blanks like the other
+// non-printing runes.
+func runeCellWidth(r rune) int {
+	if unicode.Is(unicode.Cf, r) {
+		return 0
+	}
+	return runewidth.RuneWidth(r)
 }
 
 var runeConfig *runewidth.Condition
